@@ -37,6 +37,10 @@ package muxrun
 //	             again; Q starts n > k calls TOGETHER (with the coalescer: one batch or several). The call whose Write
 //	             failed closes the connection, every call of it ends with an error of the connection. Ends when all
 //	             that has happened (or when all n requests have reached the peer after all).
+//	e<L>.<n>     (direct writer only) a user call whose context has a DEADLINE: the peer takes n bytes of its request frame
+//	             and stops reading, the deadline passes, the peer reads on. Nothing bounds the Write of the direct writer by
+//	             the context: the whole frame goes out, the call then returns the context error - and KEEPS its id (the
+//	             request is with the peer). A writer that cuts the Write at the deadline leaves a partial frame on the wire.
 //	k            Conn.Close() of the current connection (only when none of its calls is held / waiting for the slot / parked)
 //
 // Answer: `s=<ids>` the stream id of every call whose request the peer read (`-`: none was written) - the Lean side
@@ -50,6 +54,7 @@ import (
 	"context"
 	"fmt"
 	"net"
+	"os"
 	"runtime"
 	"strconv"
 	"strings"
@@ -134,7 +139,49 @@ type schedNet struct {
 	armed  bool
 	failAt int
 	fired  bool
+	// a Write cut short in the middle of a frame: the peer takes cutN bytes of the Write that carries cutPat and stops
+	// reading; the request's context deadline passes (cutExpire). A writer that has bounded the Write by a deadline
+	// (SetWriteDeadline with a non-zero time) gets (cutN, os.ErrDeadlineExceeded) back; one that has not waits until the
+	// peer reads on: the whole frame is accepted.
+	cutPat      []byte
+	cutN        int
+	cutExpire   func()
+	deadlineSet bool
 }
+
+func (n *schedNet) SetWriteDeadline(t time.Time) error {
+	n.fmu.Lock()
+	n.deadlineSet = !t.IsZero()
+	n.fmu.Unlock()
+	return nil
+}
+
+// schedDeadlineCtx is a request context WITH A DEADLINE whose expiry is an event of the script (the transport lets it
+// expire while the peer has stopped reading in the middle of the request's frame).
+type schedDeadlineCtx struct {
+	c    *schedCall
+	done chan struct{}
+	once sync.Once
+	d    time.Time
+}
+
+func (x *schedDeadlineCtx) Deadline() (time.Time, bool) { return x.d, true }
+func (x *schedDeadlineCtx) Done() <-chan struct{}       { return x.done }
+func (x *schedDeadlineCtx) Err() error {
+	select {
+	case <-x.done:
+		return context.DeadlineExceeded
+	default:
+		return nil
+	}
+}
+func (x *schedDeadlineCtx) Value(k interface{}) interface{} {
+	if _, ok := k.(schedKey); ok {
+		return x.c
+	}
+	return nil
+}
+func (x *schedDeadlineCtx) expire() { x.once.Do(func() { close(x.done) }) }
 
 type schedTimeoutErr struct{}
 
@@ -144,6 +191,19 @@ func (schedTimeoutErr) Temporary() bool { return true }
 
 func (n *schedNet) Write(p []byte) (int, error) {
 	n.fmu.Lock()
+	if n.cutPat != nil && bytes.Contains(p, n.cutPat) && len(p) >= 2 {
+		k := 1 + (n.cutN-1)%(len(p)-1)
+		bounded, expire := n.deadlineSet, n.cutExpire
+		n.cutPat = nil
+		n.fmu.Unlock()
+		n.jrTransport.Write(p[:k])
+		expire()
+		if bounded {
+			return k, &net.OpError{Op: "write", Net: "verif", Err: os.ErrDeadlineExceeded}
+		}
+		m, err := n.jrTransport.Write(p[k:])
+		return k + m, err
+	}
 	if n.armed {
 		if n.failAt == 0 {
 			n.armed, n.fired = false, true
@@ -603,6 +663,28 @@ func RunSched(line string) (ans string) {
 				return "bad-op"
 			}
 			out = append(out, fmt.Sprintf("a=%d", cap-1-cn.conn.Avail()))
+		case 'e':
+			p := strings.SplitN(st[1:], ".", 2)
+			if len(p) != 2 {
+				return "bad-op"
+			}
+			L, e1 := strconv.Atoi(p[0])
+			nb, e2 := strconv.Atoi(p[1])
+			if e1 != nil || e2 != nil || !plain || wr != 0 || L < 0 || L > 1<<20 || nb < 1 || cn.zed || cn.cur >= 0 || heldOn(cc) || len(calls) >= 40 {
+				return "bad-op"
+			}
+			c := &schedCall{idx: len(calls) + 1, typ: 'q', conn: cc, L: L, done: make(chan struct{}), gate: make(chan struct{}), gate1: make(chan struct{}), cancelled: true}
+			x := &schedDeadlineCtx{c: c, done: make(chan struct{}), d: time.Now().Add(time.Hour)}
+			c.cancel = x.expire
+			calls = append(calls, c)
+			cn.nt.fmu.Lock()
+			cn.nt.cutPat, cn.nt.cutN, cn.nt.cutExpire = []byte(fmt.Sprintf("J%d.", c.idx)), nb, x.expire
+			cn.nt.fmu.Unlock()
+			go func() { defer guard(c); c.res = cn.conn.Exec(x, fmt.Sprintf("J%d.", c.idx)) }()
+			waitFor(func() bool { return isDone(c) }, fmt.Sprintf("call %d did not return after its context deadline had passed in the middle of its Write", c.idx))
+			if !noteWritten(c) {
+				return fmt.Sprintf("call %d returned (%s) leaving a PARTIAL request frame on the wire of a connection that stays open (closed=%v, ids reserved=%d)", c.idx, c.res.Class, cn.conn.Closed(), cap-1-cn.conn.Avail())
+			}
 		case 't':
 			k, err := strconv.Atoi(st[1:])
 			if err != nil || !plain || k < 0 || k > 8 || cn.zed {
@@ -805,6 +887,7 @@ func RunSched(line string) (ans string) {
 // which then leave early, while calls run on the other connection).
 func GenSched(r *vh.Rng) (line, class string) {
 	proto := []int{2, 2, 3, 4}[r.Intn(4)]
+	wrt := r.Intn(2)
 	hl := memcluster.HeaderLen(proto)
 	type cs struct {
 		typ                                                          byte
@@ -956,8 +1039,22 @@ func GenSched(r *vh.Rng) (line, class string) {
 			c.written = true
 		}
 	}
+	cut := func() { // a request with a context deadline that passes while the peer has stopped reading mid-frame
+		add("e%d.%d", 5+r.Intn(60), 1+r.Intn(40))
+		calls = append(calls, &cs{typ: 'q', conn: cc, L: 0, written: true, gone: true, done: true})
+		feats["deadline-in-mid-write"] = true
+		add("a")
+	}
 	n := 3 + r.Intn(8)
 	switch f := r.Intn(10); {
+	case f == 6 && wrt == 0:
+		for i := r.Intn(3); i > 0; i-- {
+			start('q')
+		}
+		cut()
+		for i := 1 + r.Intn(3); i > 0; i-- {
+			start('q')
+		}
 	case f < 3:
 		// a connection closed by its peer while one call is inside Write and others wait for the write slot; some of those
 		// leave early (their call objects are done with while closeWithError still goes round); meanwhile calls on the
@@ -1167,6 +1264,8 @@ func GenSched(r *vh.Rng) (line, class string) {
 			} else {
 				add("x%d", jrLen(r)%3000)
 			}
+		case p >= 94 && p < 96 && wrt == 0 && !k.zed && k.cur < 0 && k.held < 0 && len(calls) < 30:
+			cut()
 		case p >= 96:
 			add("a")
 		}
@@ -1194,11 +1293,11 @@ func GenSched(r *vh.Rng) (line, class string) {
 	add("@2")
 	add("a")
 	class = "ds"
-	for _, f := range []string{"write-deadline-in-batch", "registration-after-close", "early-exit-while-closing", "close-while-inside-exec", "parked-in-release", "stopped-before-registration", "early-exit", "waits-for-write-slot", "answer-before-write-returned", "build-error"} {
+	for _, f := range []string{"deadline-in-mid-write", "write-deadline-in-batch", "registration-after-close", "early-exit-while-closing", "close-while-inside-exec", "parked-in-release", "stopped-before-registration", "early-exit", "waits-for-write-slot", "answer-before-write-returned", "build-error"} {
 		if feats[f] {
 			class += "/" + f
 			break
 		}
 	}
-	return fmt.Sprintf("ds %d %d %s", proto, r.Intn(2), strings.Join(steps, " ")), class
+	return fmt.Sprintf("ds %d %d %s", proto, wrt, strings.Join(steps, " ")), class
 }
